@@ -123,6 +123,7 @@ func (o StepObs) coq() string {
 // ---------------------------------------------------------------------------- generator
 
 type ribGen struct {
+	hist []drv.OpSpec // earlier ADD / REPLACE operations (to program them again)
 	r      *drv.Rng
 	nextID uint64
 	// what the generator believes is installed (only to bias choices; never used as an oracle)
@@ -171,6 +172,9 @@ func (g *ribGen) entry(o *drv.OpSpec) {
 		o.X = g.extras(3)
 		if g.r.Chance(1, 4) {
 			o.X = append(o.X, [2]uint64{2, uint64(1 + g.r.Intn(2))})
+		}
+		if g.r.Chance(1, 5) { // pop-top-label true / explicitly false
+			o.X = append(o.X, [2]uint64{3, uint64(1 + g.r.Intn(2))})
 		}
 	case x < 10:
 		o.T = "nhg"
@@ -241,6 +245,40 @@ func (g *ribGen) step() RStep {
 		}
 		return RStep{K: "flush", NIs: [][]int{{1}, {2}, {3}, {1, 2}, {2, 3}}[g.r.Intn(5)]}
 	}
+	if len(g.hist) > 0 && g.r.Chance(1, 6) {
+		// an earlier operation is programmed again: identical, with leaves removed, or with one leaf changed
+		o := g.hist[g.r.Intn(len(g.hist))]
+		for try := 0; try < 4 && len(o.X) == 0 && o.NHGN == 0 && o.Bk == 0; try++ { // prefer one that has optional leaves
+			o = g.hist[g.r.Intn(len(g.hist))]
+		}
+		o.ID = g.id()
+		o.Kind = drv.Pick(g.r, "ADD", "ADD", "REPLACE")
+		switch g.r.Intn(4) {
+		case 0:
+		case 1, 2: // only removes leaves
+			if len(o.X) > 0 {
+				o.X = append([][2]uint64{}, o.X[:g.r.Intn(len(o.X))]...)
+			}
+			if g.r.Chance(1, 2) {
+				o.Bk = 0
+			}
+			if o.NHGN == o.NI {
+				o.NHGN = 0 // the same instance, named or not
+			}
+			if len(o.NHs) > 1 && g.r.Chance(1, 2) {
+				o.NHs = append([][2]uint64{}, o.NHs[:1]...)
+			}
+		default:
+			if len(o.X) > 0 {
+				x := append([][2]uint64{}, o.X...)
+				x[0][1] = 1 + x[0][1]%2
+				o.X = x
+			} else if o.T == "nhg" {
+				o.Bk = uint64(1 + g.r.Intn(3))
+			}
+		}
+		return RStep{K: "add", Op: &o}
+	}
 	o := &drv.OpSpec{ID: g.id(), NI: g.ni()}
 	g.entry(o)
 	k := "add"
@@ -255,6 +293,9 @@ func (g *ribGen) step() RStep {
 	}
 	if g.r.Chance(1, 200) {
 		o.T = "none"
+	}
+	if k == "add" && !o.Nil && o.T != "none" {
+		g.hist = append(g.hist, *o)
 	}
 	return RStep{K: k, Op: o}
 }
@@ -502,6 +543,9 @@ func implText(r *rib.RIB) (specRIB, error) {
 					}
 				}
 			}
+			if nh.PopTopLabel != nil {
+				x = append(x, [2]uint64{3, map[bool]uint64{true: 1, false: 2}[*nh.PopTopLabel]})
+			}
 			out[fmt.Sprintf("%d|nh|%d", n, idx)] = fmt.Sprintf("nh x=%v", x)
 		}
 	}
@@ -730,6 +774,36 @@ func oracleC02(c RCase) string {
 
 // oracleC03: counters == recount of referrers after every step; at the end, DELETE of every group and
 // next-hop (each probe on its own replay of the history) fails exactly when it is installed and referenced.
+// refcountProblem: every reference counter equals the number of installed referrers, and vice versa.
+func refcountProblem(r *rib.RIB) string {
+	_, _, grpRefs, nhRefs, _ := installedSets(r)
+	rc := r.VerifRefCounts()
+	for name, cs := range rc {
+		n := drv.NICode(name)
+		for id, v := range cs.NextHopGroup {
+			if uint64(grpRefs[niKey{n, id}]) != v {
+				return fmt.Sprintf("counter of group %d in %s is %d but %d installed entries reference it", id, name, v, grpRefs[niKey{n, id}])
+			}
+		}
+		for idx, v := range cs.NextHop {
+			if uint64(nhRefs[niKey{n, idx}]) != v {
+				return fmt.Sprintf("counter of next-hop %d in %s is %d but %d installed groups contain it", idx, name, v, nhRefs[niKey{n, idx}])
+			}
+		}
+	}
+	for k, v := range grpRefs {
+		if rc[drv.NINames[k.ni]].NextHopGroup[k.id] != uint64(v) {
+			return fmt.Sprintf("group %d in %s has %d referrers but counter %d", k.id, drv.NINames[k.ni], v, rc[drv.NINames[k.ni]].NextHopGroup[k.id])
+		}
+	}
+	for k, v := range nhRefs {
+		if rc[drv.NINames[k.ni]].NextHop[k.id] != uint64(v) {
+			return fmt.Sprintf("next-hop %d in %s is in %d groups but counter %d", k.id, drv.NINames[k.ni], v, rc[drv.NINames[k.ni]].NextHop[k.id])
+		}
+	}
+	return ""
+}
+
 func oracleC03(c RCase) string {
 	problem := ""
 	_, last := ribRun(c, func(i int, st RStep, o StepObs, r *rib.RIB) {
@@ -740,34 +814,8 @@ func oracleC03(c RCase) string {
 			problem = fmt.Sprintf("step %d: panic %s", i, o.Panic)
 			return
 		}
-		_, _, grpRefs, nhRefs, _ := installedSets(r)
-		rc := r.VerifRefCounts()
-		for name, cs := range rc {
-			n := drv.NICode(name)
-			for id, v := range cs.NextHopGroup {
-				if uint64(grpRefs[niKey{n, id}]) != v {
-					problem = fmt.Sprintf("step %d: counter of group %d in %s is %d but %d installed entries reference it", i, id, name, v, grpRefs[niKey{n, id}])
-					return
-				}
-			}
-			for idx, v := range cs.NextHop {
-				if uint64(nhRefs[niKey{n, idx}]) != v {
-					problem = fmt.Sprintf("step %d: counter of next-hop %d in %s is %d but %d installed groups contain it", i, idx, name, v, nhRefs[niKey{n, idx}])
-					return
-				}
-			}
-		}
-		for k, v := range grpRefs {
-			if rc[drv.NINames[k.ni]].NextHopGroup[k.id] != uint64(v) {
-				problem = fmt.Sprintf("step %d: group %d in %s has %d referrers but counter %d", i, k.id, drv.NINames[k.ni], v, rc[drv.NINames[k.ni]].NextHopGroup[k.id])
-				return
-			}
-		}
-		for k, v := range nhRefs {
-			if rc[drv.NINames[k.ni]].NextHop[k.id] != uint64(v) {
-				problem = fmt.Sprintf("step %d: next-hop %d in %s is in %d groups but counter %d", i, k.id, drv.NINames[k.ni], v, rc[drv.NINames[k.ni]].NextHop[k.id])
-				return
-			}
+		if p := refcountProblem(r); p != "" {
+			problem = fmt.Sprintf("step %d: %s", i, p)
 		}
 	})
 	if problem != "" {
